@@ -51,7 +51,11 @@ def evaluate(prof, case, libs, timeout):
     for i in range(len(case["lifetimes"])):
         if results and hasattr(prof, "continue_after") and not prof.continue_after(case, results):
             break
-        results.append(world.run_lifetime(case, i, lib, timeout))
+        fresh = case["lifetimes"][i].get("fresh_interpreter")
+        if fresh:
+            results.append(world.run_lifetime_fresh(case, i, lib, max(timeout, 60.0), hashseed=int(fresh)))
+        else:
+            results.append(world.run_lifetime(case, i, lib, timeout))
     viol = generic_violations(case, results)
     stats = {}
     harness = [v for v in viol if v["class"] == "harness"]
